@@ -37,6 +37,8 @@ def _seeded():
     for meta in sorted(glob.glob(os.path.join(here, 'seeded', '*', 'meta.json'))):
         d = os.path.dirname(meta)
         m = json.load(open(meta))
+        if m.get('obsolete'):
+            continue          # made harmless by a later repair of the code under test (noted in its meta.json)
         out.append(dict(prop=m['property'], name='seeded/' + os.path.basename(d),
                         patch=os.path.relpath(os.path.join(d, 'patch.diff'), here)))
     return out
@@ -167,7 +169,7 @@ STORE = 'onl/sim/resources/store.py'
 MUTANTS += [
     # ---- C07
     dict(prop='C07', name='container-put-strict-greater', edits=[(CONT,
-         "        if self._capacity - self._level >= event.amount:", "        if self._capacity - self._level > event.amount:")]),
+         "        if self._level + event.amount <= self._capacity:", "        if self._level + event.amount < self._capacity:")]),
     dict(prop='C07', name='container-get-strict-greater', edits=[(CONT,
          "        if self._level >= event.amount:", "        if self._level > event.amount:")]),
     dict(prop='C07', name='store-get-pops-last-when-3plus', edits=[(STORE,
